@@ -113,7 +113,7 @@ def finalize(m: dict, tier: str) -> list[str]:
               "derive:hardened-wildcard-with-prv-keys", "derive:cannot-derive-refused"):
         if not s.get(k):
             out.append(f"key class {k} never exercised")
-    for k in ("scripts", "address", "roundtrip", "checksum", "import_request", "index_of:own", "index_of:foreign", "index_of:beyond-range", "normalized", "at_index",
+    for k in ("scripts", "address", "from_address", "roundtrip", "checksum", "import_request", "index_of:own", "index_of:foreign", "index_of:beyond-range", "normalized", "at_index",
               "corrupt:substitution", "corrupt:deletion", "multipath:expansion", "multipath:scripts", "multipath:corrupt",
               "wallet:BIP32KeyWallet:position_of", "wallet:DescriptorWallet:position_of", "wallet:ScriptWallet:position_of",
               "wallet:BIP32KeyWallet:foreign", "wallet:DescriptorWallet:foreign", "wallet:ScriptWallet:foreign",
@@ -688,6 +688,22 @@ def check_descriptor(ctx: Ctx, w: World, D, node, net: str, focus=None) -> None:
                     ctx.mon("address")
                     if ao[0] == "raise" or ao[1] != wa:
                         ctx.violation("address-differs", f"{text[:80]} at {i} on {dnet}: address {ao[1]!r}, reference {wa}", {**c2, "script": spk.hex()})
+            # from_address: the addr() descriptor of an address the reference derived is that text under BIP380's checksum,
+            # and reads back to the very script
+            if idx_n in (0, 2) and hasattr(D, "from_address"):
+                for spk in want[:2]:
+                    if ra.script_type(spk) not in ("p2pkh", "p2sh", "p2wpkh", "p2wsh", "p2tr"):
+                        continue
+                    wa = ra.address_of_script(w.nd, spk, dnet)
+                    fo = outcome(D.from_address, wa)
+                    ctx.mon("from_address")
+                    wt = f"addr({wa})#" + w.rd.descsum_create(f"addr({wa})")
+                    if fo[0] == "raise" or fo[1] != wt:
+                        ctx.violation("from-address-differs", f"from_address({wa}) = {fo[1]!r}, BIP380 gives {wt}", {**c2, "address": wa})
+                        continue
+                    bo = outcome(lambda: [bytes(x.script) for x in D.parse(fo[1], dnet).script_pub_keys(0)])
+                    if bo[0] == "raise" or bo[1] != [spk]:
+                        ctx.violation("from-address-does-not-read-back", f"parse(from_address({wa})) on {dnet} gives {bo[1]!r}, the address was made from {spk.hex()}", {**c2, "address": wa})
             # the list spelling: one address per script, in order, those of the standard types equal to the reference's
             if idx_n in (0, 3):
                 lo = outcome(d.addresses, i, prv if use_prv else None)
